@@ -24,7 +24,7 @@ pub struct WorkIter<'buf, B: MutRB> {
     pub(crate) buffer: BufRef<'buf, B>,
 }
 
-unsafe impl<B: ConcurrentRB + MutRB<Item = T>, T> Send for WorkIter<'_, B> {}
+unsafe impl<B: ConcurrentRB + MutRB<Item = T>, T: Send> Send for WorkIter<'_, B> {}
 
 impl<B: MutRB + IterManager> Drop for WorkIter<'_, B> {
     fn drop(&mut self) {
